@@ -290,36 +290,52 @@ func (s *Service) dispatch(response map[string]map[string]any, client *ClientSer
 				MagicValue    string
 				AgentID       string
 				Header        = agent.Header{}
-				RegisterInfo  = response["Body"]["RegisterInfo"].(map[string]any)
 				AgentInstance *agent.Agent
 				err           error
 			)
 
+			// the message comes from a script: a field of another JSON type than expected is an
+			// invalid message, not a reason to end the teamserver
+			RegisterInfo, ok := response["Body"]["RegisterInfo"].(map[string]any)
+			if !ok {
+				logger.Error("Service agent register: RegisterInfo is not an object")
+				break
+			}
+
+			AgentHeader, ok := response["Body"]["AgentHeader"].(map[string]any)
+			if !ok {
+				logger.Error("Service agent register: AgentHeader is not an object")
+				break
+			}
+
 			logger.Debug(RegisterInfo)
 
-			if val, ok := response["Body"]["AgentHeader"].(map[string]any)["Size"]; ok {
-				if Size, err = strconv.Atoi(val.(string)); err != nil {
+			switch val := AgentHeader["Size"].(type) {
+			case string:
+				if Size, err = strconv.Atoi(val); err != nil {
 					Size = 0
 				}
-				Header.Size = Size
+			case float64:
+				Size = int(val)
 			}
+			Header.Size = Size
 
-			if val, ok := response["Body"]["AgentHeader"].(map[string]any)["MagicValue"]; ok {
-				MagicValue = val.(string)
-			}
+			MagicValue, _ = AgentHeader["MagicValue"].(string)
+			AgentID, _ = AgentHeader["AgentID"].(string)
 
-			if val, ok := response["Body"]["AgentHeader"].(map[string]any)["AgentID"]; ok {
-				AgentID = val.(string)
-			}
-
+			// a header that names no magic value or no agent id (both are hexadecimal strings
+			// of at most 32 bit) registers nothing: before, the parse error was logged and the
+			// agent was added under the id / magic value 0
 			MagicValue64, err := strconv.ParseInt(MagicValue, 16, 64)
-			if err != nil {
-				logger.Error("MagicValue64: " + err.Error())
+			if err != nil || MagicValue64 < 0 || MagicValue64 > 0xffffffff {
+				logger.Error(fmt.Sprintf("Service agent register: invalid MagicValue %q", MagicValue))
+				break
 			}
 
 			AgentID64, err := strconv.ParseInt(AgentID, 16, 64)
-			if err != nil {
-				logger.Error("MagicValue64: " + err.Error())
+			if err != nil || AgentID64 < 0 || AgentID64 > 0xffffffff {
+				logger.Error(fmt.Sprintf("Service agent register: invalid AgentID %q", AgentID))
+				break
 			}
 
 			Header.AgentID = int(AgentID64)
